@@ -79,6 +79,8 @@ type hist struct {
 	committedList []types.Evidence
 	rejected      []types.Evidence // items the reference rejected (wire form)
 
+	fol *follower // the node that only ever applies blocks (follower.go)
+
 	deepSigs    map[string]string // signatures of pairs under examination -> tag
 	forceCommit []types.Evidence  // items formed from reported votes, to be committed next
 
@@ -1258,8 +1260,10 @@ func (h *hist) applyBlock(plan chaingen.StepPlan, blk *types.Block, label string
 	}
 	list := blk.Evidence.Evidence
 	s11 := int64(0)
+	refOK := true
 	if len(list) > 0 {
-		s11 = h.judgeList(list).s11
+		v := h.judgeList(list)
+		s11, refOK = v.s11, v.accept
 	}
 	for _, ev := range list {
 		if ch := h.committed[hashKey(ev)]; ch != 0 {
@@ -1353,6 +1357,7 @@ func (h *hist) applyBlock(plan chaingen.StepPlan, blk *types.Block, label string
 	h.c.Count("evidence_committed", int64(len(list)))
 	h.bounds("update", o, must, may)
 	h.adopt(o)
+	h.followerApply(rec, refOK)
 	for _, j := range jobs {
 		h.deepCheck(j)
 	}
